@@ -40,6 +40,15 @@ def templates(tier="quick"):
         log = "# ninja log v%d\n1\t2\t1700000000000000000\ta\tabcdef\n3\t4\t1700000000000000000\tb\t123456\n" % ver
         T.append(scenario("c08/unsupported_v%d" % ver, "c08", [v0, v1], files={".ninja_log": log}, ops=ops, init=[], depth=2,
                           tags=["buildlog", "version"]))
+    # a generator statement in the middle of a build (ninja closes the log around it and reopens it lazily)
+    g0 = Variant("v0", [Stmt("pre", ex=["s"]), Stmt("cfg", ex=["pre", "cfg.in"], generator=True), Stmt("a", ex=["cfg"]),
+                        Stmt("b", ex=["a"])])
+    gops = [{"op": "edit", "path": "s", "label": "edit s"}, {"op": "edit", "path": "cfg.in", "label": "edit cfg.in"},
+            {"op": "rm", "path": "a", "label": "rm a"}]
+    gb = len(gops)
+    gops += [ninja_op(j=1), ninja_op(j=2), _tool("recompact")]
+    T.append(scenario("c08/generator_midbuild/fresh", "c08", [g0], ops=gops, init=[], depth=2, tags=["buildlog", "generator"]))
+    T.append(scenario("c08/generator_midbuild/built", "c08", [g0], ops=gops, init=[gb], depth=d, tags=["buildlog", "generator"]))
     # an implicit output supplied through dyndep information (no node for it when the log is opened)
     from family_cycles import dyndep_text
     dd = dyndep_text([("out", ["out.x"], [], False)])
